@@ -5,6 +5,8 @@
 from string import ascii_letters, digits
 from urllib.parse import uses_netloc
 
+from yarl._quoters import QUOTER
+
 from .prims import (CUT, all_chars_in, dec_value, first_not_of, first_of, is_ascii_digits, last_index,
                     lower_ascii, nfkc, re_match_, remove_char)
 
@@ -143,6 +145,16 @@ def split_netloc(netloc):
     return (user if user else None, password, host if host else None, port)
 
 
+def split_netloc_ensures(netloc, result):
+    """facts every caller may rely on: a port is in range (C17), user and host are never the
+    empty string, and without an authority there is nothing"""
+    user, password, host, port = result
+    return ((port is None or (0 <= port and port <= 65535))
+            and (user is None or user != "")
+            and (host is None or host != "")
+            and (netloc != "" or (user is None and password is None and host is None and port is None)))
+
+
 def unsplit_requires(scheme, netloc, url, query, fragment):
     """structural invariant of the stored parts (established by every producer except
     encoded=True garbage): the path of a URL with an authority is empty or starts with '/'"""
@@ -163,3 +175,31 @@ def unsplit_result(scheme, netloc, url, query, fragment):
     if fragment:
         url = url + "#" + fragment
     return url
+
+
+def make_netloc_requires(user, password, host, port, encode=False):
+    """call-site precondition: the port is absent or a valid port number (C17/C19: every
+    producer checks the range before assembling the authority)"""
+    return port is None or 0 <= port <= 65535
+
+
+def make_netloc(user, password, host, port, encode=False):
+    """RFC 3986 3.2:  authority = [ userinfo "@" ] host [ ":" port ],
+    userinfo = user [ ":" password ]; with encode the user and password are quoted as
+    userinfo text.  No host, no authority."""
+    if host is None:
+        return ""
+    hostport = host
+    if port is not None:
+        hostport = host + ":" + str(port)
+    if user is None and password is None:
+        return hostport
+    u = user if user else ""
+    if encode and u:
+        u = QUOTER(u)
+    userinfo = u
+    if password is not None:
+        userinfo = u + ":" + (QUOTER(password) if encode else password)
+    if userinfo:
+        return userinfo + "@" + hostport
+    return hostport
